@@ -498,6 +498,71 @@ def m11(rep):
     rep.floor("run-time registrations of globals in genc.c", n, 2)
 
 
+def m12(rep):
+    """The five hash digits in `G_<hash>_<name>` are what keeps two long names apart once the text is cut.  They are a function
+    of the whole name: gc0IdHashInBuf computes strHash(s) of the string it is given.  A remembered hash handed out when the new
+    name `looks like` the last one (a fixed-width key compared with strncmp) gives two names that share their first 63
+    characters one hash -- one C name for two entities, and uses that name a global nobody declared.  Every value that reaches
+    the digit loop of gc0IdHashInBuf is computed in the call from strHash of its parameter; no file-scope or static variable
+    is read on the way."""
+    f = common.extract("genc.c", trees=["gc0IdHashInBuf"])
+    fn = f.func("gc0IdHashInBuf")
+    params = set(p_["n"] for p_ in fn.get("params", []))
+    locs = set(params)
+    stat = set()
+    for x in walk(fn["body"]):
+        if x["k"] == "DeclStmt":
+            for d in x.get("decls", []):
+                (stat if d.get("static") else locs).add(d["n"])
+    # the variable the digit loop consumes: `v % 36`
+    digit_vars = set()
+    for x in walk(fn["body"]):
+        if x["k"] == "BinaryOperator" and x["op"] == "%" and const_value(x["c"][1]) == 36:
+            v = strip(x["c"][0])
+            if v is not None and v["k"] == "DeclRefExpr":
+                digit_vars.add(v["n"])
+    if len(digit_vars) != 1:
+        raise AnalysisBroken("gc0IdHashInBuf: the base-36 digit loop was not found")
+    hv = digit_vars.pop()
+    n = 0
+    bad = None
+    seen = set()
+    work = [hv]
+    while work:
+        v = work.pop()
+        if v in seen:
+            continue
+        seen.add(v)
+        for x in walk(fn["body"]):
+            rhs = None
+            if x["k"] == "BinaryOperator" and x["op"] == "=" and (strip(x["c"][0]) or {}).get("n") == v:
+                rhs = x["c"][1]
+            elif x["k"] == "DeclStmt":
+                for d in x.get("decls", []):
+                    if d["n"] == v and d.get("init") is not None:
+                        rhs = d["init"]
+            if rhs is None:
+                continue
+            n += 1
+            for y in walk(rhs):
+                if y["k"] == "DeclRefExpr" and y.get("dk") in ("var", "parm"):
+                    if y["n"] in stat or y["n"] not in locs:
+                        bad = (x["l"], y["n"])
+                    elif y["n"] not in params:
+                        work.append(y["n"])
+    has_hash = any(c.get("callee") == "strHash" and (strip(c["c"][1]) or {}).get("n") in params for c in common.calls(fn["body"]))
+    if not has_hash:
+        raise AnalysisBroken("gc0IdHashInBuf no longer calls strHash on its parameter")
+    if bad:
+        rep.violation("M12", "hash-of-the-whole-name", "genc.c:%d (gc0IdHashInBuf)" % bad[0],
+                      "the hash written into the generated name comes from `%s`, state kept between calls, not from strHash of the "
+                      "name given: when the remembered entry is recognised by a prefix of the name, two names sharing that prefix "
+                      "get one hash -- both are declared under one C name and uses refer to a name never declared (the unit does "
+                      "not compile under any option set)" % bad[1])
+    else:
+        rep.ok("M12", "hash-of-the-whole-name", sample={"assignments followed": n})
+
+
 def run(tier, only=None):
     rep = common.Report("C16", tier, EXPLANATION)
     f = common.extract("genc.c", all_cfg=True)
@@ -553,6 +618,7 @@ def run(tier, only=None):
     m9(rep)
     m10(rep)
     m11(rep)
+    m12(rep)
     mx = max(ch for ch, _, _ in rows if ch is not None)
     if mx >= bound:
         rep.violation("M3", "table-chars", "genc.c (ccSpecCharIdTable)", "character %d indexes tables of %d elements" % (mx, bound))
